@@ -19,6 +19,8 @@ Trace == ndJsonDeserialize(IOEnv.VERIF_TRACE)
 SoftRules == {"C19.right_maximal", "C19.left_maximal", "C19.run_literals",
               "C12.match_longest", "C12.literal_justified", "C11.cost_optimal", "C07.refused"}
 
+MaxHard == 3   \* failing events recorded per trace before the rest is skipped
+
 VARIABLES l, st, es, bad, tid
 vars == <<l, st, es, bad, tid>>
 
@@ -48,19 +50,25 @@ TraceNext ==
   /\ LET e == Trace[l] IN
      IF e.op = "begin"
      THEN /\ tid' = e.tid /\ st' = PInit(e.c) /\ es' = EInit(e.W) /\ bad' = 0
-     ELSE IF bad # 0 \/ e.op = "end"
+     ELSE IF bad >= MaxHard \/ e.op = "end"
      THEN UNCHANGED <<tid, st, es, bad>>
      ELSE LET why == WhyE(e) IN
           IF why \subseteq SoftRules
           THEN /\ IF IsDec(e) THEN es' = EEff(es, e) /\ st' = st ELSE st' = PEff(st, e) /\ es' = es
                /\ UNCHANGED <<tid, bad>>
                /\ (why # {} => TLCSet(1, Append(TLCGet(1), [tid |-> tid, line |-> l, why |-> why])))
-          ELSE /\ bad' = l
-               /\ UNCHANGED <<tid, st, es>>
+          ELSE \* a hard rule failed: record it; keep validating the rest of the
+               \* trace from the state the event claims, as long as that state is sane
                /\ TLCSet(1, Append(TLCGet(1), [tid |-> tid, line |-> l, why |-> why]))
+               /\ UNCHANGED tid
+               /\ IF bad + 1 < MaxHard /\ PStateOk(IF IsDec(e) THEN st ELSE PEff(st, e))
+                        /\ EStateOk(IF IsDec(e) THEN EEff(es, e) ELSE es)
+                     THEN /\ bad' = bad + 1
+                          /\ IF IsDec(e) THEN es' = EEff(es, e) /\ st' = st ELSE st' = PEff(st, e) /\ es' = es
+                     ELSE bad' = MaxHard /\ UNCHANGED <<st, es>>
 
 TraceSpec == TraceInit /\ [][TraceNext]_vars
-TraceInv == bad # 0 \/ (PStateOk(st) /\ EStateOk(es))
+TraceInv == bad >= MaxHard \/ (PStateOk(st) /\ EStateOk(es))
 
 Post ==
   /\ PrintT(<<"VERIF_BAD", ToJson(TLCGet(1))>>)
